@@ -44,6 +44,9 @@ pub enum Pix {
     Const(u8),
     /// Cycled.
     Pattern(#[serde(with = "escaped")] Vec<u8>),
+    /// Runs of identical three-byte pixels (lengths 1..=40) from a SplitMix64 stream: flat
+    /// areas, repeated rows, the kind of data a "fast path" would key on.
+    Runs(u64),
 }
 
 pub fn pix_bytes(p: &Pix, n: usize) -> Vec<u8> {
@@ -58,6 +61,25 @@ pub fn pix_bytes(p: &Pix, n: usize) -> Vec<u8> {
             v
         }
         Pix::Const(c) => vec![*c; n],
+        Pix::Runs(s) => {
+            let mut st = *s;
+            let mut v = Vec::with_capacity(n + 128);
+            while v.len() < n {
+                let r = splitmix(&mut st);
+                let px = [r as u8, (r >> 8) as u8, (r >> 16) as u8];
+                // now and then a pixel made of one repeated byte, or of "syntax" bytes
+                let px = match (r >> 24) % 8 {
+                    0 => [px[0]; 3],
+                    1 => [b'\n', b'#', b' '],
+                    _ => px,
+                };
+                for _ in 0..1 + (r >> 32) % 40 {
+                    v.extend_from_slice(&px);
+                }
+            }
+            v.truncate(n);
+            v
+        }
         Pix::Pattern(p) if p.is_empty() => vec![0; n],
         Pix::Pattern(p) => p.iter().copied().cycle().take(n).collect(),
     }
